@@ -132,7 +132,9 @@ pub fn finish(mut rep: Report) -> i32 {
         "violations": violation_lines.len(),
     });
     let _ = std::fs::create_dir_all(format!("{VERIF_DIR}/evidence"));
-    let evpath = format!("{VERIF_DIR}/evidence/{}.json", rep.prop);
+    // maintenance runs against seeded changes (tools/try_mutant.sh) must not overwrite the evidence of the real tree
+    let evpath = if std::env::var_os("VH_NO_EVIDENCE").is_some() { let _ = std::fs::create_dir_all(format!("{VERIF_DIR}/target/scratch-evidence")); format!("{VERIF_DIR}/target/scratch-evidence/{}.json", rep.prop) }
+                 else { format!("{VERIF_DIR}/evidence/{}.json", rep.prop) };
     if let Err(e) = std::fs::write(&evpath, serde_json::to_string_pretty(&ev).unwrap()) {
         println!("ENGINE-ERROR: cannot write {evpath}: {e}");
         return 2;
